@@ -48,6 +48,7 @@ class _State:
         self.sleeping = None       # multiprocessing.Value('i') shared by all processes of a case
         self.progress = None       # multiprocessing.RawValue('q'): bumped on every line event
         self.yield_every = 0       # >0: time.sleep(0) every n-th event (forces GIL hand-offs)
+        self.instr_offsets = {}    # code -> offsets of attribute access instructions with INSTRUCTION hooks
 
 
 S = _State()
@@ -108,6 +109,52 @@ def _on_line(code, line):
                 raise InjectedFault(f"failpoint at {role}:{qn}+{rel}#{n}")
     if st.yield_every and st.total % st.yield_every == 0:
         time.sleep(0)
+
+
+def _on_instruction(code, offset):
+    """Instruction-granular hook (enabled only on selected hot functions): same delay/fault plan, site = 'i<offset>'."""
+    st = S
+    if not st.active:
+        return
+    if offset not in st.instr_offsets.get(code, ()):
+        return
+    role = _role()
+    qn = code.co_qualname
+    rel = f"i{offset}"
+    key = (role, qn, rel)
+    n = st.occ.get(key, 0) + 1
+    st.occ[key] = n
+    if st.plan:
+        act = st.plan.get((role, qn, rel, n))
+        if act is None and role.startswith("worker"):
+            act = st.plan.get(("worker*", qn, rel, n))
+        if act is not None and act[0] == "sleep":
+            st.fired.append((role, qn, rel, n, act[0]))
+            sl = st.sleeping
+            if sl is not None:
+                with sl.get_lock():
+                    sl.value += 1
+            try:
+                time.sleep(act[1])
+            finally:
+                if sl is not None:
+                    with sl.get_lock():
+                        sl.value -= 1
+
+
+def enable_instruction_hooks(qualnames):
+    """INSTRUCTION events on the given functions, filtered to attribute reads/writes (accesses to shared state): a
+    preemption can only matter between two of those. Returns {qualname: [offsets]}."""
+    import dis
+    out = {}
+    mon.register_callback(TOOL, mon.events.INSTRUCTION, _on_instruction)
+    for co, (qn, first, fn) in S.codes.items():
+        if qn in qualnames:
+            offs = [i.offset for i in dis.get_instructions(co) if i.opname in ("LOAD_ATTR", "STORE_ATTR", "LOAD_METHOD")]
+            S.instr_offsets[co] = frozenset(offs)
+            out[qn] = offs
+            mon.set_local_events(TOOL, co, mon.events.LINE | mon.events.INSTRUCTION)
+    return out
 
 
 def _walk_code(co, root, out):
